@@ -126,13 +126,25 @@ fn key(e: &Entry) -> (u8, u8, u32, u32) {
 
 /// encoder-side oracle. `on_grid[i]` says whether entry i's bias is a grid value (then it must come back bit-exact).
 pub fn oracle_encode(m: BiasMsg, es: &[Entry], on_grid: &[bool]) -> Result<&'static str, (String, String)> {
+    oracle_encode_with(m, es, on_grid, None)
+}
+/// `before`: the builder's first use was another (typically refused) message
+pub fn oracle_encode_with(m: BiasMsg, es: &[Entry], on_grid: &[bool], before: Option<&Message>) -> Result<&'static str, (String, String)> {
     let n = m.number();
     let r = catch(|| -> Result<&'static str, (String, String)> {
         let msg = match make_message(m, es) {
             Some(x) => x,
             None => return Ok("over-capacity-input"),
         };
-        let f = match msggen::build(&msg) {
+        let built = match before {
+            None => msggen::build(&msg),
+            Some(d) => {
+                let mut b = MessageBuilder::new();
+                let _ = b.build_message(d).map(|f| f.len());
+                b.build_message(&msg).map(|f| f.to_vec()).map_err(|e| format!("{:?}", e))
+            }
+        };
+        let f = match built {
             Ok(f) => f,
             Err(_) => return Ok("refused"),
         };
@@ -352,7 +364,7 @@ pub fn run(ctx: &Ctx, replay: Option<&J>) -> CheckResult {
     let rule = "typed lists for 1059 (satellites 0..63, 12 signals), 1065 (0..31, 4 signals), 1230 (4 signals): distinct (satellite, signal) pairs scattered through the list with 1..all \
         satellites (incl. 60 and 64 of 64) and up to 390 entries, biases on the decoder's grid (bit-exact comparison) and off-grid in range (half-step tolerance), plus lists with duplicate keys (one satellite with 1..390 entries, alone or scattered among others: if accepted, no entry may be lost) and lists outside the \
         precondition (unrecognised signals, satellite 200); and hostile frames with maximal per-satellite counts. oracle: build is Err, or the frame \
-        decodes to the same variant with the same multiset of (satellite, signal, bias) grouped by ascending satellite; outside the precondition and for hostile frames: no panic and never \
+        decodes to the same variant with the same multiset of (satellite, signal, bias) grouped by ascending satellite (also when the builder's first use was a refused or long message); outside the precondition and for hostile frames: no panic and never \
         more entries than the capacity. non-trivial = >=2 satellites with interleaved entries, >=60 satellites, or a hostile frame; distinct = hash of the entry list / frame"
         .to_string();
     let assumptions = vec![
@@ -402,6 +414,9 @@ pub fn run(ctx: &Ctx, replay: Option<&J>) -> CheckResult {
             };
         }
     }
+    let _ = crate::msggen::corpus(ctx.seed);
+    let pool = crate::checks::c12::pool(ctx.seed);
+    let dist = crate::checks::c12::disturbers(ctx.seed);
     let lists = ctx.n(600_000, 60_000_000);
     let (mut ev, mut vs) = par_shards(48, |shard| {
         let mut ev = Evidence::new();
@@ -413,7 +428,15 @@ pub fn run(ctx: &Ctx, replay: Option<&J>) -> CheckResult {
         for i in 0..n {
             let (es, og, label) = gen_entries(&mut rng, m, i + shard as u64);
             ev.evaluations += 1;
-            match oracle_encode(m, &es, &og) {
+            let mut r = oracle_encode(m, &es, &og);
+            if let Ok("roundtrip") = r {
+                // the same list on a builder whose first use was a refused / long message
+                let d = &pool[dist[(i as usize + shard) % dist.len()]];
+                if let Err((sig, msg)) = oracle_encode_with(m, &es, &og, Some(&d.msg)) {
+                    r = Err((format!("{}(builder-used-before)", sig), format!("builder used before for [{}]: {}", d.label, msg)));
+                }
+            }
+            match r {
                 Ok(outcome) => {
                     let mut sats: Vec<u8> = es.iter().map(|e| e.sat).collect();
                     let interleaved = sats.windows(2).filter(|w| w[0] != w[1]).count() > { sats.sort(); sats.dedup(); sats.len() };
